@@ -29,7 +29,7 @@ pub fn lexer_tie(world: &World, g: &Gram, guides: &[Vec<u8>], seed: u64, tag: us
     if cg.parametric || cg.syms.iter().any(|s| s.3) { rep.count("lexer.skipped.parametric-or-subgrammar"); return; }
     let lexemes = tp.parser.verif_lexemes();
     if lexemes.iter().any(|l| l.0.is_none()) { rep.count("lexer.skipped.lexeme-not-exportable"); return; }
-    if lexemes.iter().any(|l| l.2 .3 || l.2 .4) { rep.count("lexer.skipped.token-ranges-or-suffix"); return; }
+    if lexemes.iter().any(|l| l.2 .4) { rep.count("lexer.skipped.token-ranges"); return; }
     if lexemes.iter().any(|l| l.2 .6 != lexemes[0].2 .6) { rep.count("lexer.skipped.several-lexeme-classes"); return; }
     let skips: Vec<usize> = lexemes.iter().enumerate().filter(|(_, l)| l.2 .0).map(|(i, _)| i).collect();
     if skips.len() > 1 { rep.count("lexer.skipped.several-skip-lexemes"); return; }
